@@ -389,6 +389,12 @@ def run_check(prop, tier, seed, replay=None):
                         break
             cases += batch
             prop.extra_checks(tier, rng, rep)
+            gw = sys.modules.get("gridw")
+            if gw is not None and gw.STATS["illegal"] > 0:
+                # the generators only describe worlds that are legal by construction; a description the REAL grid
+                # refused to hold was skipped by the generator - which would hide a grid that refuses what it should hold
+                rep.runtime_failure("real code: the grid refused to hold %d world description(s) that are legal by "
+                                    "construction" % gw.STATS["illegal"], None)
         judge_cases(prop, cases, rep)
         lines, code = decide(prop, rep)
         write_evidence(prop, rep, code)
